@@ -311,10 +311,6 @@ func (e *Engine) genFunc(c *Contract, fn *ssa.Function, mode Mode, known map[str
 	e.entryState = fr.entry
 	env := e.contractEnv(c, fn, fr.params, st)
 	env.old = fr.entry
-	// global invariants
-	for _, g := range e.db.Globals {
-		e.assumeGlobalInv(g, st)
-	}
 	// preconditions
 	pre := "true"
 	for _, r := range c.Requires {
@@ -605,4 +601,24 @@ func (e *Engine) evalWitnesses(c *Contract, fr *Frame, st *State, base *Env) []s
 		}()
 	}
 	return out
+}
+
+// assumeGlobalInvOn assumes the declared invariant of a package-level variable
+// on a value just loaded from it (assumption, listed in the evidence). Only
+// sound for variables that are written during package initialisation only.
+func (e *Engine) assumeGlobalInvOn(gv *ssa.Global, val SV, t types.Type, st *State) {
+	if gv.Pkg == nil || e.vc.noDef > 0 {
+		return
+	}
+	for _, g := range e.db.Globals {
+		if g.Pkg != gv.Pkg.Pkg.Path() || g.Name != gv.Name() {
+			continue
+		}
+		func() {
+			defer func() { recover() }()
+			env := &Env{vars: map[string]TV{"v": {V: val, T: t}}, cur: st, e: e, pkg: gv.Pkg.Pkg}
+			e.vc.assume("true", e.evalBool(env, g.Cl.Expr))
+			e.vc.usedExt["global-invariant "+g.Pkg+"."+g.Name+": "+g.Cl.Text] = true
+		}()
+	}
 }
